@@ -130,7 +130,10 @@ func faultClass(desc string) string {
 	if strings.HasPrefix(desc, "random/") {
 		return "structured-random"
 	}
-	for _, p := range []string{"truncate", "read-error", "token", "byte", "count", "valid"} {
+	if strings.HasPrefix(desc, "plygrammar/") {
+		return "ply-grammar-file"
+	}
+	for _, p := range []string{"truncate", "transient-read-error", "read-error", "token", "byte", "count", "valid"} {
 		if strings.HasPrefix(rest, p) {
 			return p
 		}
@@ -144,7 +147,7 @@ func main() {
 		return
 	}
 	r := vlib.Start("C16", "fault_enumeration")
-	r.Rule("corpus of valid STL (binary/ASCII), PLY (ascii/le/be, mesh and generic headers), OFF and CSV files x {every truncation point, reader error after byte k, one-byte reads, every whitespace token replaced by each of 36 hostile tokens, binary count fields and body bytes set to boundary values, single-byte corruptions, hand-written hostile headers, seeded structured random edits}; each case runs one decoder in a child process with RLIMIT_AS=3GiB; events: panic, more records than input bytes+16, TotalAlloc > 256*len+2MiB, fatal error, hang. Non-trivial = any case other than the unmodified valid file; distinct by hash(decoder, mode, k, bytes)")
+	r.Rule("corpus of valid STL (binary/ASCII), PLY (ascii/le/be, mesh and generic headers), OFF and CSV files x {every truncation point, reader error after byte k, one-byte reads, every whitespace token replaced by each of 36 hostile tokens, binary count fields and body bytes set to boundary values, single-byte corruptions, hand-written hostile headers, seeded structured random edits}; each case runs one decoder in a child process with RLIMIT_AS=3GiB; events: panic, more records than input bytes+16, TotalAlloc > 256*len+2MiB (+2MiB per call made after an error), fatal error, hang. Non-trivial = any case other than the unmodified valid file; distinct by hash(decoder, mode, k, bytes)")
 	r.Assume("a decoder returning an error or data is fine; only panics, non-progress, disproportionate allocation, fatal errors and hangs are violations")
 	r.Assume("allocation is measured as runtime.MemStats.TotalAlloc delta around the call in the child")
 
@@ -178,6 +181,10 @@ func main() {
 			emit(tc)
 			c.Count("class.large-file", 1)
 		}
+		plyGrammarCases(rng, r.N(12000, 240000), func(tc testCase) {
+			emit(tc)
+			c.Count("class.ply-grammar", 1)
+		})
 		randomStructured(rng, seeds, r.N(150000, 3000000), emit)
 		c.Count("seed_files", int64(len(seeds)))
 
@@ -237,6 +244,10 @@ func main() {
 						// (an honest 7 MB binary STL costs about 3.5x)
 						limit = uint64(16*len(tc.data) + 2<<20)
 					}
+					// every further call made after an error may again cost the fixed part
+					// (e.g. the bounded capacity hint of the OFF vertex table)
+					limit += uint64(res.Retries) * (2 << 20)
+					c.Count("calls_after_error", int64(res.Retries))
 					c.Max("alloc_over_input_bytes."+decoderNames[tc.dec], float64(res.Alloc)/float64(len(tc.data)+1))
 					if res.Alloc > limit {
 						report(c, tc, "alloc", fmt.Sprintf("allocated %d bytes for a %d-byte input (limit %d: 256*len+2MiB, 16*len+2MiB above 1 MiB)", res.Alloc, len(tc.data), limit), "")
@@ -264,6 +275,8 @@ func main() {
 	r.Require("class.truncate", 1000)
 	r.Require("class.token", 1000)
 	r.Require("class.read-error", 500)
+	r.Require("class.transient-read-error", 500)
+	r.Require("class.ply-grammar-file", 1000)
 	for _, n := range decoderNames {
 		r.Require("cases."+n, 200)
 	}
